@@ -207,8 +207,9 @@ for (fn, fam, P, B, LANES, c, fl, EFN, INC, XB, R) in SIMD:
     J(c + "cleanup", ["C15", "C17"], HS, "h_cleanup", enforce=P + "_cleanup", cflags=fl, replace=["skinny_cleanse"],
       must_have=PC + ["C17 erasure"], replay=R + "_life,erase",
       note="base pointer read before the wipe, whole context wiped, base freed exactly once (layout: aligned pointer == block base)")
-    J(c + "increment", ["C05"], HS, "h_increment", enforce=INC, cflags=fl, loops=False, unwind=B + 1, must_have=PC, replay=R,
-      note="lane `column` += inc as a big-endian %d-bit integer incl. every carry and wrap; other lanes unchanged; %d-iteration loop unwound (complete)" % (8 * B, B))
+    J(c + "increment", ["C05"], HS, "h_increment", enforce=INC, cflags=fl, loops=False, unwind=70, must_have=PC, replay=R,
+      note="lane `column` += inc as a big-endian %d-bit integer incl. every carry and wrap; other lanes unchanged; %d-iteration loop unwound (complete; bound 70 so that a loop "
+           "that a change makes data dependent is still executed to its end)" % (8 * B, B))
     for n in range(0, B + 1):
         J(c + "set_counter.len%d" % n, ["C05", "C06", "C14"], HS, "h_set_counter", enforce=P + "_set_counter", cflags=fl,
           defs=["VERIF_CASE_LEN=%d" % n], replace=[INC, "skinny_cleanse"], must_have=PC, replay=R, timeout=1800,
@@ -489,14 +490,16 @@ for (w, u, e) in _cfgs:
     tag = "@w%du%de%d" % (w, u, e)
     dfs = ["SKINNY_C_VERIF=1", "SKINNY_VERIF_64BIT=%d" % w, "SKINNY_VERIF_UNALIGNED=%d" % u, "SKINNY_VERIF_LITTLE_ENDIAN=%d" % e]
     base_ids = ["s128." + x for x in _CFG_JOBS] + ["s64." + x for x in _CFG_JOBS] + \
-               ["m.ecb_crypt", "m.ecb_crypt_tweaked", "m.set_key.len16", "m.swap_modes", "i.xor128", "i.xor64", "i.inc128", "i.inc64"]
+               ["m.ecb_crypt", "m.ecb_crypt_tweaked", "m.set_key.len16", "m.set_tweak", "m.swap_modes", "i.xor128", "i.xor64", "i.inc128", "i.inc64", "i.cleanse", "i.xor"]
+    # (every function of src/ that contains a configuration #if is in this list: round-5 seeded change C12-mantis-null-tweak-32bit-path
+    #  sat in the SKINNY_64BIT=0 branch of mantis_set_tweak, which was not)
     for bid in base_ids:
         b = [j for j in JOBS if j.id == bid][0]
         nj = _copy.copy(b)
         nj.id = bid + tag
         # the same obligations are part of the conformance properties' THOROUGH tier (a fault that exists only on a
         # non-default compile-time path breaks C01/C02/C03 in that build); every-change tier: C12 only
-        nj.props = ["C12"] + (["C01", "C03"] if bid.startswith(("s128.", "s64.")) else ["C02", "C03"] if bid.startswith("m.") else ["C05"])
+        nj.props = ["C12"] + (["C01", "C03"] if bid.startswith(("s128.", "s64.")) else ["C02", "C03"] if bid.startswith("m.") else ["C17"] if bid == "i.cleanse" else ["C05"])
         nj.quick_only_for = {"C12"}
         nj.defs = list(b.defs) + dfs
         nj.tier = "quick" if (w, u, e) in _quick_cfgs and not bid.endswith("set_tk1") else "thorough"
@@ -539,7 +542,20 @@ for _j in JOBS:
         _j.mem_gb = 40          # 8 lanes x 4 interleaved vectors: runs alone with a 40 GB limit
         _j.timeout = 7200
     if _j.id == "pv128a.encrypt":
-        _j.tier = "thorough"   # 8.5 min on one core (sbox_four interleaves four vectors); its decrypt twin and the other ciphers' vector functions stay in quick
+        # 8.5 min on one core (sbox_four interleaves four vectors): part of the every-change tier of C07 only (it runs next to the other
+        # jobs on its own core, inside the 900 s budget); every other property sees it in the thorough tier
+        _j.quick_only_for = {"C07"}
+    if _re.match(r"^pv(128a|64)\.decrypt$|^pvm\.crypt$", _j.id):
+        # the vector inverse rounds are separate code from the scalar ones: C03's every-change tier must see them
+        # (round-4 seeded change C03-vec128-inv-sbox-lane-mixup was missed by C03 quick, caught only by C07 quick / C03 thorough)
+        _j.quick_only_for = {"C07", "C05", "C03"}
+
+# C06 is decided as a corollary: every back end meets the SAME stream contracts.  All C05 obligations (generic back end, helpers,
+# SIMD lane increment, set_counter, encrypt) are therefore obligations of C06 as well (round-5 seeded change
+# C06-avx2-counter-wrap-carry-reentry was missed because the lane increment jobs were listed under C05 only).
+for _j in JOBS:
+    if "C05" in _j.props and "C06" not in _j.props and "@" not in _j.id:
+        _j.props.append("C06")
 
 # C09: the key / tweak / counter readers are bound to the exact extent the arguments announce
 for _j in JOBS:
